@@ -274,7 +274,8 @@ def run_reuse(case):
     from glom import T as T_
     mk_t = {'empty': lambda: {'x': 'vx0'}, 'has-a': lambda: {'a': {}, 'x': 'vx1'}, 'has-ab': lambda: {'a': {'b': {}}, 'x': 'vx2'},
             'list': lambda: {'a': [{'b': 1}], 'x': 'vx3'}, 'obj': lambda: {'a': MR.Obj(b=MR.Obj()), 'x': 'vx4'}}
-    val = {'T': lambda: T_['x'], 'spec': lambda: Spec(('x', lambda v: v + '!')), 'lit': lambda: 'L'}[vkind]
+    val = {'T': lambda: T_['x'], 'spec': lambda: Spec(('x', lambda v: v + '!')), 'lit': lambda: 'L',
+           'cont': lambda: {'n': T_['x'], 'l': [T_['x'], 'lit']}}[vkind]      # a container value: rebuilt for every application
     factory = {None: None, 'dict': dict, 'obj': MR.Obj}[mname]
     kw = {} if factory is None else {'missing': factory}
     shared = Assign(path, val(), **kw)
@@ -290,6 +291,38 @@ def run_reuse(case):
         if outs[0] != outs[1]:
             return R({'expected': 'application #%d of the re-used Assign equals a fresh Assign: %r' % (i + 1, outs[0]), 'observed': repr(outs[1]),
                       'path': path, 'value': vkind, 'missing': mname, 'targets': targets}, 'reuse')
+    # the same Assign object applied to all the targets inside ONE glom call (a list spec), when every single application succeeds
+    singles = []
+    for tn in targets:
+        t = mk_t[tn]()
+        try:
+            glom(t, Assign(path, val(), **kw))
+            singles.append(MR.canon(t))
+        except Exception:
+            singles = None
+            break
+    if singles is not None:
+        ts = [mk_t[tn]() for tn in targets]
+        try:
+            glom(ts, [shared])
+            got = [MR.canon(t) for t in ts]
+        except Exception as e:
+            got = 'raised %r' % (e,)
+        if got != singles:
+            return R({'expected': 'glom(targets, [assign]) treats every target like a call of its own: %r' % (singles,), 'observed': repr(got),
+                      'path': path, 'value': vkind, 'missing': mname, 'targets': targets}, 'reuse-in-one-call')
+        if vkind == 'cont':
+            # each target received a container of its own
+            vals = []
+            for t in ts:
+                try:
+                    vals.append(glom(t, path))
+                except Exception:
+                    vals = None
+                    break
+            if vals and len(set(id(v) for v in vals)) != len(vals):
+                return R({'expected': 'every target receives a value container of its own', 'observed': 'one container object assigned to several targets',
+                          'path': path, 'missing': mname, 'targets': targets}, 'reuse-in-one-call')
     return R(None, 'ok', steps=len(targets), tags={vkind, str(mname)})
 
 
@@ -297,7 +330,7 @@ def gen_reuse(tier):
     names = ['empty', 'has-a', 'has-ab', 'list', 'obj']
     cases = []
     for path in ('a.b.c', 'a.b', 'a.0.b', 'q.r'):
-        for vkind in ('T', 'spec', 'lit'):
+        for vkind in ('T', 'spec', 'lit', 'cont'):
             for mname in (None, 'dict', 'obj'):
                 for n in (2, 3):
                     for seq in itertools.product(names, repeat=n):
@@ -361,6 +394,35 @@ def run_created(case):
     return R(None, 'ok', nontrivial=True, steps=len(keys), tags={pname, fname})
 
 
+# dynamic keys that cannot be evaluated, at several depths: an error, nothing written anywhere
+UNRESOLVABLE = {
+    'key-fails-at-depth-2': lambda: T['data'][T['cfg']['slots']['cur']]['b']['c'],
+    'key-fails-at-depth-1': lambda: T['data'][T['cfg']['nope']]['b']['c'],
+    'key-fails-at-depth-0': lambda: T['data'][T['nope']]['b']['c'],
+    'last-key-fails-at-depth-2': lambda: T['data']['b'][T['cfg']['slots']['cur']],
+    'key-fails-below-absent-parent': lambda: T['fresh'][T['cfg']['slots']['cur']]['b']['c'],
+    'Spec-key-fails': lambda: T['data'][Spec('cfg.slots.cur')]['b']['c'],
+}
+
+
+def run_unresolvable(case):
+    name, style = case
+    mk = lambda: {'cfg': {'slots': {}}, 'data': {'x': {}}, 'b': {}}
+    t = mk()
+    path = UNRESOLVABLE[name]()
+    try:
+        assign(t, path, 5, missing=dict) if style == 'func' else glom(t, Assign(path, 5, missing=dict))
+        got = 'no error'
+    except GlomError as e:
+        got = 'error'
+    except Exception as e:
+        got = 'exception %r' % (e,)
+    if got != 'error' or MR.canon(t) != MR.canon(mk()):
+        return R({'expected': 'a GlomError (the key cannot be evaluated), target unchanged', 'observed': '%s, target %r' % (got, t), 'path': repr(path), 'form': style},
+                 'unresolvable-key')
+    return R(None, 'error', nontrivial=True, steps=1, tags={name})
+
+
 def gen_created():
     return [[p, f, s] for p in CREATED_PATHS for f in CREATED_FACTORIES for s in ('func', 'spec')]
 
@@ -391,6 +453,10 @@ def subs(tier, only=None):
                        rule='case = (path with T / Spec keys at or below the first absent segment, factory (dict | dict that already holds the names the keys read), '
                             'function | spec form) with missing=: equals the plain nested assignment with the keys read from the target',
                        min_nontrivial=40, min_outcomes=1, required_tags=['absent-parent/dynamic-middle', 'dict-holding-the-key-names']))
+    if only in (None, 'unresolvable-dynamic-keys'):
+        out.append(Sub('unresolvable-dynamic-keys', [[n, st] for n in UNRESOLVABLE for st in ('func', 'spec')], run_unresolvable,
+                       rule='case = (path with a T / Spec key whose own evaluation fails at depth 0-2, function | spec form) with missing=dict: an error, nothing written',
+                       min_nontrivial=12, min_outcomes=1))
     if only in (None, 'dynamic-keys-below-wildcards'):
         from . import c12
         out.append(Sub('dynamic-keys-below-wildcards', c12.gen_dynamic_wildcard(('assign',)), c12.run_dynamic_wildcard,
